@@ -70,9 +70,9 @@ Lemma recover_newest_pair sl f p sl' : seq_distinct (indexed sl) ->
 Proof.
   intros SD. unfold recover_inner. pose proof (two_newest_top2 sl SD) as T.
   destruct (two_newest sl) as [[[ni nh]|] [[si sh]|]]; try discriminate.
-  destruct (is_awip nh && negb (kind_is_fw nh) && is_awip sh && kind_is_fw sh && (hsize nh =? hsize sh)%N && fits (hsize sh) (hcount sh)) eqn:C; [|discriminate].
+  destruct (is_awip nh && negb (kind_is_fw nh) && is_awip sh && kind_is_fw sh && (hsize nh =? hsize sh)%N && fits (hsize sh) (hcount sh) && (hcount nh <=? 2048)%N) eqn:C; [|discriminate].
   intros H. inversion H; subst f p sl'. clear H. split; [reflexivity|].
-  apply andb_prop in C. destruct C as [C _]. apply andb_prop in C. destruct C as [C _]. apply andb_prop in C. destruct C as [C C4].
+  apply andb_prop in C. destruct C as [C _]. apply andb_prop in C. destruct C as [C _]. apply andb_prop in C. destruct C as [C _]. apply andb_prop in C. destruct C as [C C4].
   apply andb_prop in C. destruct C as [C C3]. apply andb_prop in C. destruct C as [C1 C2].
   cbn [Top2] in T. destruct T as (I & M & J & Nq & K). apply indexed_iff in I. apply indexed_iff in J.
   assert (Nidx : si <> ni). { intros ->. apply Nq. f_equal. congruence. }
